@@ -305,12 +305,14 @@ impl PseudoFs {
         let inode = inodes
             .get(&parent)
             .ok_or_else(|| Error::from_raw_os_error(libc::ENOENT))?;
-        let mut next = offset + 1;
         let children = inode.children.load();
 
         if offset >= children.len() as u64 {
             return Ok(());
         }
+        // `offset` is below the number of children here, so this cannot overflow (a client may
+        // send any offset, including u64::MAX).
+        let mut next = offset + 1;
 
         for child in children[offset as usize..].iter() {
             match add_entry(DirEntry {
